@@ -83,3 +83,46 @@ func VerifC02NewPrivateKey(curve int) {
 		}
 	}
 }
+
+// VerifC02PublicBytes: the serialized public key serP(P) of every point (x, y) is the 33 bytes
+// (0x02 | y&1) || x as 32 big-endian bytes — also when x has leading zero bytes — and the public key of a
+// private key serializes the same way; Public() of a public key is itself.
+//
+//verif:run quick curve=0..1
+//verif:big bv 272
+func VerifC02PublicBytes(curve int) {
+	n := verifOrder(curve)
+	c := Curve{verifGroup{&stdelliptic.CurveParams{P: n, N: n, B: big.NewInt(7), Gx: big.NewInt(1), Gy: big.NewInt(1), Name: "abstract", BitSize: 256}}}
+	xb := verifBytes("x", 32)
+	x := new(big.Int).SetBytes(xb)
+	y := verifBig("y", 256)
+	verifAssume(x.Sign() > 0 && x.Cmp(n) < 0 && y.Sign() != 0) // a point of the abstract group
+	pub := &PublicKey{Curve: c.Curve, X: x, Y: y}
+	out := pub.Bytes()
+	verifAssert("serp.len", len(out) == 33)
+	if len(out) != 33 {
+		return
+	}
+	verifAssert("serp.prefix", out[0] == 2|byte(y.Bit(0)))
+	same := true
+	for i := 0; i < 32; i++ {
+		if out[1+i] != xb[i] {
+			same = false
+		}
+	}
+	verifAssert("serp.x", same)
+	verifAssert("serp.public.self", pub.Public() == slip10.Key(pub) && !pub.IsPrivate())
+	// private key d: public point (d, 1) in the abstract group
+	key, err := c.NewPrivateKey(xb)
+	verifAssert("serp.private.ok", err == nil)
+	if err == nil {
+		pb := key.Public().Bytes()
+		ok := len(pb) == 33 && pb[0] == 3
+		for i := 0; ok && i < 32; i++ {
+			if pb[1+i] != xb[i] {
+				ok = false
+			}
+		}
+		verifAssert("serp.private.public", ok)
+	}
+}
